@@ -200,7 +200,7 @@ def step (st : St) (ws : List String) : St × String :=
       let cur := st.seq.chanDisable.getD c false
       let outs : List Out :=
         if !enable && cur != true then
-          [Out.rt tCtrl c 64 0, Out.rt tCtrl c 66 0] ++ (List.range 127).map fun i => Out.rt tNoteOff c i 0
+          [Out.rt tCtrl c 64 0, Out.rt tCtrl c 66 0] ++ (List.range 128).map fun i => Out.rt tNoteOff c i 0
         else []
       ({ st with seq := { st.seq with chanDisable := st.seq.chanDisable.set c (!enable) } }, s!"ret=0 ev={showOuts (dyStr st.now) outs}")
     | _, _ => (st, "bad-op")
